@@ -2,11 +2,14 @@
 # Self-test of the machinery (not a registered check): every patch under selftest/mutants must be
 # reported as a VIOLATION of the property named in its file name (C<nn>_...), every patch under
 # selftest/benign must leave all listed properties green. Patches are applied to a scratch copy.
-#   usage: selftest/run.sh [pattern]
+#   usage: selftest/run.sh [--benign|--mutants] [pattern]
 cd "$(dirname "$0")/.."
+kinds="mutants benign"
+if [ "${1:-}" = "--benign" ]; then kinds=benign; shift; fi
+if [ "${1:-}" = "--mutants" ]; then kinds=mutants; shift; fi
 pat="${1:-}"
 fail=0
-for kind in mutants benign; do
+for kind in $kinds; do
   for p in selftest/$kind/*${pat}*.patch; do
     [ -f "$p" ] || continue
     name=$(basename "$p" .patch)
